@@ -14,7 +14,7 @@ int verif_ev_op[24], verif_ev_a[24], verif_ev_b[24], verif_ev_c[24], verif_ev_d[
 /* ---- strings as identities ------------------------------------------------------------------------------------------ */
 /* a C string handed out by the stubs is a pointer to one cell of verif_cell (a CONCRETE cell index: null tests and object
    identity stay decidable by constant propagation) whose identity - possibly symbolic - is stored in verif_cell_id */
-#define NCELL 256
+#define NCELL 640
 static char verif_cell[NCELL];
 static int verif_cell_id[NCELL];
 static int verif_ncell_dyn; /* cells NCELL/2.. are handed out in call order by c_str() / operator+ results */
@@ -105,7 +105,7 @@ static bool is_blank(const std::string& s) { return s.id == 0 || s.id >= 1000; }
 #define XML_READER_TYPE_SIGNIFICANT_WHITESPACE 14
 #define XML_READER_TYPE_END_ELEMENT 15
 struct xmlTextReader;
-#define NNODE 24
+#define NNODE 40
 /* the script: parallel scalar arrays (cbmc's constant propagation is per array cell for plain arrays; with an array of
    structs one symbolic attribute value made every field of every node symbolic) */
 static int N_type[NNODE], N_tag[NNODE], N_empty[NNODE], N_text[NNODE];
@@ -145,6 +145,10 @@ static void rec(int op, int a, int b, int c, int d)
     verif_ev_op[verif_nev] = op; verif_ev_a[verif_nev] = a; verif_ev_b[verif_nev] = b; verif_ev_c[verif_nev] = c; verif_ev_d[verif_nev] = d;
     verif_nev++;
 }
+struct ParserBuilder;
+static int g_tracker_path; /* identity of the XPath the builder's diagnostics are currently attributed to */
+struct verif_tracker { void setPath(ParserBuilder*, const std::string& p) { g_tracker_path = p.id; } void increment(ParserBuilder*, size_t) {} };
+static verif_tracker tracker;
 static int g_builder_throws; /* the builder callbacks may throw a TypeException (e.g. a duplicate location name): arbitrary */
 struct ParserBuilder
 {
@@ -155,6 +159,8 @@ struct ParserBuilder
     void proc_location_commit(const char* name) { rec(EV_COMMIT, verif_id(name), 0, 0, 0); }
     void proc_location_urgent(const char* name) { rec(EV_URGENT, verif_id(name), 0, 0, 0); }
     void proc_branchpoint(const char* name) { rec(EV_BRANCHPOINT, verif_id(name), 0, 0, g_tracker_path); }
+    void proc_begin(const char* name) { rec(EV_PROC_BEGIN, verif_id(name), 0, 0, g_tracker_path); }
+    void proc_end() { rec(EV_PROC_END, 0, 0, 0, g_tracker_path); }
     void handle_error(const TypeException&) { rec(EV_ERROR, 0, 0, 0, 0); }
     void handle_warning(const TypeException&) { rec(EV_WARNING, 0, 0, 0, 0); }
 };
@@ -167,9 +173,7 @@ static int parse_XTA(const char* text, ParserBuilder*, bool, xta_part_t part, co
     return (t >= 50 && t < 60 && ((g_parse_fails[0] >> (t - 50)) & 1)) ? -1 : 0;
 }
 /* position tracker: no effect on the document */
-static int g_tracker_path; /* identity of the XPath the builder's diagnostics are currently attributed to */
-struct verif_tracker { void setPath(ParserBuilder*, const std::string& p) { g_tracker_path = p.id; } void increment(ParserBuilder*, size_t) {} };
-static verif_tracker tracker;
+
 /* class Path (real: a list of sibling vectors, one per open level).  Kept per level: the tag of the most recent sibling and how
    many siblings in a row carry it (= the real count(level, tag) whenever same-tag siblings are contiguous, as the DTD has
    them).  str(tag) is the identity of the XPath text the real function prints: the (tag, index) pairs from the root down
@@ -257,7 +261,37 @@ public:
     bool location();
     bool branchpoint();
     bool transition();
+    bool declaration();
+    int parameter();
+    bool templ();
+    /* contracts of the element readers as templ() sees them (their bodies are the obligations of the c04_reader_* jobs):
+       if the next element is theirs, it is consumed whole and handed over (logged with the node it started at) */
+    bool element__contract(tag_t tag, bool skipEmpty, int ev);
+    bool location__contract() { return element__contract(tag_t::LOCATION, false, EV_C_LOCATION); }
+    bool branchpoint__contract() { return element__contract(tag_t::BRANCHPOINT, false, EV_C_BRANCHPOINT); }
+    bool transition__contract() { return element__contract(tag_t::TRANSITION, true, EV_C_TRANSITION); }
+    bool init__contract()
+    {
+        if (element__contract(tag_t::INIT, false, EV_C_INIT)) return true;
+        if (!verif_exc) parser->handle_error(TypeException());
+        return false;
+    }
 };
+bool XMLReader::element__contract(tag_t tag, bool skipEmpty, int ev)
+{
+    if (!begin(tag, skipEmpty)) return false;
+    if (verif_exc) return false;
+    rec(ev, ncur, 0, 0, 0);
+    if (isEmpty()) { read(); return true; }
+    int d = path.depth;
+    for (int i = 0; i < NNODE; i++) {
+        if (verif_exc) return false;
+        if (getNodeType() == XML_READER_TYPE_END_ELEMENT && path.depth == d) { read(); return true; }
+        read();
+    }
+    __CPROVER_assert(0, "stub: the element ends inside the script");
+    return true;
+}
 /* name(): <name>text</name> if it is the next element (real: readString/readText, which additionally trim the text and
    reject keywords - not under contract) */
 std::string XMLReader::name(bool)
@@ -286,6 +320,12 @@ void wx_node(int i, int type, int tag, int empty, int a_ref, int a_id, int a_kin
     N_val[i * 5 + 0] = a_ref; N_val[i * 5 + 1] = a_id; N_val[i * 5 + 2] = a_kind; N_val[i * 5 + 3] = a_controllable; N_val[i * 5 + 4] = a_action;
 }
 /* reader positioned on node 0, which is an element inside a template: the path holds the open ancestors */
+void wx_start_template(int n)
+{
+    nnode = n; ncur = 0; verif_exc = 0; verif_nev = 0; verif_ncell_dyn = 0; g_builder_throws = 0; g_parse_fails[0] = 0;
+    R.parser = &PB; R.newxta = true;
+    R.path.reset(); g_tracker_path = 0; R.path.push(tag_t::NTA); R.path.push(tag_t::TEMPLATE);
+}
 void wx_start(int n, int first_tag, int builder_throws, int parse_fails)
 {
     nnode = n; ncur = 0; verif_exc = 0; verif_nev = 0; verif_ncell_dyn = 0; g_builder_throws = builder_throws; g_parse_fails[0] = parse_fails;
@@ -301,7 +341,8 @@ int wx_call(int which)
     case 0: return R.transition();
     case 1: return R.init();
     case 2: return R.location();
-    default: return R.branchpoint();
+    case 3: return R.branchpoint();
+    default: return R.templ();
     }
 }
 int wx_cursor(void) { return ncur; }
